@@ -4,7 +4,7 @@ import ZChain.Model.Ledger
 `init <feeOn 0|1> <id:bal:nonce>*`
 `txn <send|data|sc|invalid> <sender> <to> <toValid 0|1> <value> <fee> <nonce> <res>`
    res = `-` | `int` | `chg` | `chg|<ops>` | `ok` | `ok|<ops>`; ops separated by `;`:
-   `t,src,dst,amt` (transfer) `s,src,dst,amt` (signed transfer) `w,k,v` (write) `d,k` (delete)
+   `t,src,dst,amt` (transfer; a destination id may carry the suffix `u` = upper-case spelling) `s,src,dst,amt` (signed transfer) `w,k,v` (write) `d,k` (delete)
 answer: `<status> a=<id:bal:nonce,…> s=<k:v,…> tot=<sum> x=0` (every account that has a leaf, both sorted). -/
 namespace ZChain.Drv.LEDGER
 open ZChain.Ledger
@@ -46,13 +46,18 @@ structure Ops where
   tr : List Transfer := []
   sg : List Transfer := []
 
+/-- an id token: `7` (canonical spelling) or `7u` (upper-case spelling of the same id). -/
+def parseId (w : String) : Option (Nat × Bool) :=
+  if w.endsWith "u" then ((w.dropEnd 1).toString.toNat?).map (fun n => (n, false))
+  else (w.toNat?).map (fun n => (n, true))
+
 def parseOp (o : Ops) (w : String) : Option Ops :=
   match w.splitOn "," with
-  | ["t", a, b, c] => match a.toNat?, b.toNat?, c.toNat? with
-    | some a, some b, some c => some { o with tr := o.tr ++ [⟨a, b, c⟩] }
+  | ["t", a, b, c] => match a.toNat?, parseId b, c.toNat? with
+    | some a, some (b, cn), some c => some { o with tr := o.tr ++ [⟨a, b, c, cn⟩] }
     | _, _, _ => none
-  | ["s", a, b, c] => match a.toNat?, b.toNat?, c.toNat? with
-    | some a, some b, some c => some { o with sg := o.sg ++ [⟨a, b, c⟩] }
+  | ["s", a, b, c] => match a.toNat?, parseId b, c.toNat? with
+    | some a, some (b, cn), some c => some { o with sg := o.sg ++ [⟨a, b, c, cn⟩] }
     | _, _, _ => none
   | ["w", k, v] => match k.toNat?, v.toNat? with
     | some k, some v => some { o with ws := o.ws ++ [.put k v] }
@@ -89,10 +94,10 @@ def step (d : DS) (ws : List String) : DS × String :=
     | some a => if fee = "0" ∨ fee = "1" then ({ feeOn := fee = "1", st := ⟨a, []⟩ }, "ok") else (d, "bad-op")
     | none => (d, "bad-op")
   | ["txn", typ, sender, to, tv, value, fee, nonce, res] =>
-    match parseTyp typ, sender.toNat?, to.toNat?, value.toNat?, fee.toNat?, nonce.toInt?, parseRes res with
-    | some typ, some sender, some to, some value, some fee, some nonce, some r =>
+    match parseTyp typ, sender.toNat?, parseId to, value.toNat?, fee.toNat?, nonce.toInt?, parseRes res with
+    | some typ, some sender, some (to, cn), some value, some fee, some nonce, some r =>
       if tv ≠ "0" ∧ tv ≠ "1" then (d, "bad-op") else
-      let t : Txn := { sender, to, toValid := tv = "1", value, fee, nonce, typ }
+      let t : Txn := { sender, to, toValid := tv = "1", toCanon := cn, value, fee, nonce, typ }
       let (s', st) := ZChain.Ledger.step d.feeOn d.st t r
       ({ d with st := s' }, showStatus st ++ " " ++ showState s')
     | _, _, _, _, _, _, _ => (d, "bad-op")
